@@ -319,3 +319,18 @@ def run(ctx):
         v = r[3][0][2] if isinstance(r, tuple) and r[0] == "agg" and r[2] == "Ok" and isinstance(r[3][0], tuple) and r[3][0][0] == "agg" else None
         kinds[tuple(emp)] = v
     ck.ob("C10-R8", pl, "DeviceEvent-iff-some-device-entry", kinds == {(False,): "DeviceEvent", (True,): "TimedOut"}, detail=str(kinds))
+
+    # ---- R9 the device queues are read only by the two read adapters: anything else that pulls records off a reader
+    # (a drain at registration time, a peek) takes events away from the loop
+    callers = {}
+    for pth in sorted(ctx.F.bodies):
+        if "::tests::" in pth or "::tests" in pth.split("::{closure")[0].split("::")[-2:-1]:
+            continue
+        for i, name, t in ctx.body(pth).calls():
+            if name in readers:
+                callers.setdefault(name, set()).add(pth.split("::{closure")[0])
+    allowed = set(adapters.values()) | {"main", "monitor_utils::do_monitor", "monitor_utils::monitor"}
+    for rd in sorted(readers):
+        cs = callers.get(rd, set())
+        extra = sorted(c for c in cs if c not in allowed and not c.startswith("monitor") and "exclusion" not in c and not c.startswith("dev_input_rw::do_exclusion_loop"))
+        ck.ob("C10-R9", rd, "read-only-by-its-Driver-adapter(and-the-stand-alone-monitor-command)", not extra, detail=str(sorted(cs)))
